@@ -461,7 +461,7 @@ func replayC09(c *Ctx, w *Witness) error {
 		faultInjection(c, w.Grammar, "f_replay_"+w.Key()[:6], n)
 		return nil
 	}
-	u := &c09Unit{name: "g_replay_" + w.Key()[:8], text: w.Text, flags: w.Flags, kind: "replay"}
+	u := &c09Unit{name: "g_replay_" + w.Key()[:8], text: w.SourceText(), flags: w.Flags, kind: "replay"}
 	if len(w.Strs) == 3 {
 		u.kind = w.Strs[0]
 		u.opts.OutSub, u.opts.WorkSub = w.Strs[1], w.Strs[2]
@@ -472,7 +472,7 @@ func replayC09(c *Ctx, w *Witness) error {
 	o := u.opts
 	o.Flags = u.flags
 	u.res = c.W.RunGocc(u.name, []byte(u.text), o)
-	wit := &Witness{Kind: "c09", Text: w.Text, Flags: w.Flags, Strs: w.Strs}
+	wit := &Witness{Kind: "c09", Text: w.SourceText(), Flags: w.Flags, Strs: w.Strs}
 	switch {
 	case u.res.Budget:
 		wit.Note = "gocc exceeded the step budget of an instrumented loop"
